@@ -120,26 +120,41 @@ struct EventInner {
 
 impl EventInner {
     fn set(&self) {
-        // Set IS_SET atomically. If HAS_WAITERS was not set, the
-        // returned previous value will have HAS_WAITERS == 0 and
-        // we are done. Using fetch_or instead of load+store avoids
-        // a race where a concurrent waiter registration would set
-        // HAS_WAITERS between our load and store.
-        let prev = self.state.fetch_or(IS_SET, Ordering::Release);
-        if prev & HAS_WAITERS == 0 {
-            return;
+        // Fast path: no waiters — publish IS_SET with a compare-exchange
+        // that only succeeds while HAS_WAITERS is clear. A waiter that
+        // publishes HAS_WAITERS concurrently either makes the exchange
+        // fail (we then take the slow path) or observes IS_SET in its
+        // own re-check after `fetch_or(HAS_WAITERS)`.
+        let mut state = self.state.load(Ordering::Relaxed);
+        while state & HAS_WAITERS == 0 {
+            match self.state.compare_exchange(
+                state,
+                state | IS_SET,
+                Ordering::Release,
+                Ordering::Relaxed,
+            ) {
+                Ok(_) => return,
+                Err(actual) => state = actual,
+            }
         }
 
-        // Slow path: drain awaiters that were already registered when
-        // this call observed `HAS_WAITERS`, waking each outside the
-        // mutex to avoid deadlocks with reentrant wakers. Advance
-        // the waiter set's generation first so that any awaiter
-        // that registers mid-drain (typically via a reentrant waker
-        // calling `reset()` and then re-entering `wait()`) is
-        // skipped — those awaiters belong logically after this
-        // `set()` returns and would otherwise observe a closed gate
-        // yet still be notified.
-        self.slow.lock().expect(NEVER_POISONED).advance_generation();
+        // Slow path: drain awaiters that are registered at the moment
+        // the event becomes set, waking each outside the mutex to avoid
+        // deadlocks with reentrant wakers. IS_SET is published and the
+        // waiter set's generation is advanced in the same critical
+        // section: registration happens under this mutex after a final
+        // IS_SET check, so every awaiter in the set at this point
+        // registered before the event became set and must be released,
+        // while any awaiter that registers later (after a `reset()`,
+        // possibly via a reentrant waker re-entering `wait()` mid-drain)
+        // is stamped with the new generation and skipped — those
+        // awaiters belong logically after this `set()` and would
+        // otherwise observe a closed gate yet still be notified.
+        {
+            let mut waiters = self.slow.lock().expect(NEVER_POISONED);
+            self.state.fetch_or(IS_SET, Ordering::Release);
+            waiters.advance_generation();
+        }
         loop {
             let mut waiters = self.slow.lock().expect(NEVER_POISONED);
             let waker = waiters.notify_one_prior_generation();
